@@ -815,7 +815,101 @@ def c18_indicators(inp):
                                            "(MPC on constant real vectors excluded: recorded finding)"}
 
 
-DRIVERS = {"c18_indicators": c18_indicators, "c13_sdest": c13_sdest, "c04_preger": c04_preger, "c03_split": c03_split, "c14_sequences": c14_sequences, "c16_dialog": c16_dialog, "c02_merge": c02_merge, "c09_run": c09_run, "c10_run": c10_run, "c10_fn": c10_fn}
+# ----------------------------------------------------------------------------------
+# C20: the artists matplotlib receives, read back from an Agg figure
+# ----------------------------------------------------------------------------------
+
+def c20_plots(inp):
+    import types
+    import matplotlib
+    matplotlib.use("Agg")
+    import matplotlib.pyplot as plt
+    from collections import Counter
+    from pyoma2.functions import plot
+    import pyoma2.algorithms.plscf as aplscf
+    import pyoma2.algorithms.ssi as assi
+    import pyoma2.algorithms.fdd as afdd
+    rng = np.random.RandomState(11)
+
+    def pairs(x, y):
+        return Counter((round(float(a), 9), round(float(b), 9)) for a, b in zip(x, y) if np.isfinite(a) and np.isfinite(b))
+
+    def stable_unstable(ax):
+        st = Counter()
+        for ln in ax.get_lines():
+            if ln.get_marker() == "o" and ln.get_color() in ("g",):
+                xy = ln.get_xydata()
+                st += pairs(xy[:, 0], xy[:, 1])
+        un = Counter()
+        for col in ax.collections:
+            if type(col).__name__ == "PathCollection":
+                off = np.asarray(col.get_offsets())
+                if off.size:
+                    un += pairs(off[:, 0], off[:, 1])
+        return st, un
+    for trial in range(40):
+        n0, n1 = int(rng.randint(2, 9)), int(rng.randint(2, 12))
+        Fn, Xi, _, _ = crafted_tables(n0, n1, 2, trial)
+        Lab = (rng.rand(n0, n1) < 0.5).astype(int)
+        Lab[np.isnan(Fn)] = 0
+        Fc = rng.rand(n0, n1) * 0.3 if trial % 3 == 0 else None
+        for hide in (True, False):
+            want_st = Counter((round(float(Fn[r, c_]), 9), float(c_)) for r in range(n0) for c_ in range(n1) if Lab[r, c_] == 1 and np.isfinite(Fn[r, c_]))
+            want_un = Counter((round(float(Fn[r, c_]), 9), float(c_)) for r in range(n0) for c_ in range(n1) if Lab[r, c_] == 0 and np.isfinite(Fn[r, c_]))
+            try:
+                fig, ax = plot.stab_plot(Fn.copy(), Lab.copy(), 1, n1 - 1 if trial % 2 else n1 + 2, ordmin=0, hide_poles=hide, Fn_cov=Fc)
+                st, un = stable_unstable(ax)
+                plt.close(fig)
+            except Exception as e:      # noqa: BLE001
+                return {"reproduced": True, "detail": f"stab_plot raised {type(e).__name__}: {e}"}
+            if st != want_st or (not hide and un != want_un) or (hide and sum(un.values())):
+                return {"reproduced": True, "detail": f"stab_plot(hide_poles={hide}) on a {n0}x{n1} table: markers differ from one per pole at "
+                                                      f"(Fn, order): stable ok={st == want_st}, unstable ok={un == want_un or hide}; e.g. "
+                                                      f"{sorted((un - want_un).elements())[:2]} drawn, {sorted((want_un - un).elements())[:2]} missing"}
+            want_st = Counter((round(float(Fn[r, c_]), 9), round(float(Xi[r, c_]), 9)) for r in range(n0) for c_ in range(n1) if Lab[r, c_] == 1 and np.isfinite(Fn[r, c_]))
+            want_un = Counter((round(float(Fn[r, c_]), 9), round(float(Xi[r, c_]), 9)) for r in range(n0) for c_ in range(n1) if Lab[r, c_] == 0 and np.isfinite(Fn[r, c_]))
+            try:
+                fig, ax = plot.cluster_plot(Fn.copy(), Xi.copy(), Lab.copy(), hide_poles=hide)
+                st, un = stable_unstable(ax)
+                plt.close(fig)
+            except Exception as e:      # noqa: BLE001
+                return {"reproduced": True, "detail": f"cluster_plot raised {type(e).__name__}: {e}"}
+            if st != want_st or (not hide and un != want_un):
+                return {"reproduced": True, "detail": f"cluster_plot(hide_poles={hide}): markers differ from (Fn, Xi) of the poles"}
+        nc, nf = int(rng.randint(1, 5)), int(rng.randint(3, 30))
+        Sv = np.zeros((nc + 1, nc, nf))
+        for k in range(nc):
+            Sv[k, k, :] = np.sort(rng.rand(nf) + 0.1)[::-1] / (k + 1)
+        fr = np.linspace(0, 10, nf)
+        for nsv in ["all"] + list(range(nc)):
+            try:
+                fig, ax = plot.CMIF_plot(Sv.copy(), fr.copy(), nSv=nsv)
+                lines = [ln.get_xydata() for ln in ax.get_lines()]
+                plt.close(fig)
+            except Exception as e:      # noqa: BLE001
+                return {"reproduced": True, "detail": f"CMIF_plot(nSv={nsv}) raised {type(e).__name__}: {e}"}
+            n = nc if nsv == "all" else nsv
+            ok = len(lines) == n and all(np.allclose(lines[k][:, 0], fr) and np.allclose(lines[k][:, 1], 10 * np.log10(Sv[k, k, :] / Sv[0, 0, :].max()))
+                                         for k in range(min(n, len(lines))))
+            if not ok:
+                return {"reproduced": True, "detail": f"CMIF_plot(nSv={nsv}): {len(lines)} curves for {n} requested, or a curve is not 10 log10(S_k/max S_1) over the whole grid"}
+    # the classes' plot methods
+    Fn, Xi, Phi, _ = crafted_tables(6, 7, 2, 1)
+    Lab = (rng.rand(6, 7) < 0.5).astype(int)
+    res = types.SimpleNamespace(Fn_poles=Fn, Xi_poles=Xi, Phi_poles=Phi, Lab=Lab, Fn_poles_cov=None, S_val=Sv, freq=fr)
+    for cls, meths in ((assi.SSIcov, ("plot_stab", "plot_cluster")), (aplscf.pLSCF, ("plot_stab", "plot_cluster")), (afdd.FDD, ("plot_CMIF",))):
+        for m in meths:
+            try:
+                o = cls(name="a", br=4, ordmax=6) if cls is assi.SSIcov else (cls(name="a", ordmax=7) if cls is aplscf.pLSCF else cls(name="a"))
+                o.result = res
+                fig, ax = getattr(o, m)()
+                plt.close(fig)
+            except Exception as e:      # noqa: BLE001
+                return {"reproduced": True, "detail": f"{cls.__name__}.{m}() raised {type(e).__name__}: {e}"}
+    return {"reproduced": False, "detail": "stabilisation / cluster / singular-value diagrams draw exactly the expected markers and curves on 40 random tables; class methods plot"}
+
+
+DRIVERS = {"c20_plots": c20_plots, "c18_indicators": c18_indicators, "c13_sdest": c13_sdest, "c04_preger": c04_preger, "c03_split": c03_split, "c14_sequences": c14_sequences, "c16_dialog": c16_dialog, "c02_merge": c02_merge, "c09_run": c09_run, "c10_run": c10_run, "c10_fn": c10_fn}
 
 
 def main():
